@@ -48,6 +48,10 @@ func (w *shutWorld) handler(ctx context.Context, req *payloads.ActivateRequestPa
 	w.active.Add(1)
 	w.handlerSeen[int(req.UniqueIdentifier[len(req.UniqueIdentifier)-1]-'0')].Add(1)
 	defer w.active.Add(-1)
+	if strings.HasPrefix(req.UniqueIdentifier, "stub") {
+		// a handler that ignores its context: it only ends when the gate opens (a separate thread opens it at any time)
+		mc.Select(false, mc.RecvCase(w.gate))
+	}
 	if strings.HasPrefix(req.UniqueIdentifier, "slow") {
 		// runs until the gate opens (never, here) or its context is cancelled
 		switch mc.Select(false, mc.DoneCase(ctx.Done()), mc.RecvCase(w.gate)) {
@@ -68,7 +72,7 @@ func (w *shutWorld) client(i int, phase string) {
 		w.clientGone[i].Store(true)
 		return // listener already closed: connection refused
 	}
-	id := fmt.Sprintf("%s%d", map[string]string{"fast": "ok", "slow": "slow", "nowrite-smallpipe": "ok", "late": "ok"}[phase], i)
+	id := fmt.Sprintf("%s%d", map[string]string{"fast": "ok", "slow": "slow", "nowrite-smallpipe": "ok", "late": "ok", "stubborn": "stub"}[phase], i)
 	switch phase {
 	case "idle":
 	case "half":
@@ -94,7 +98,7 @@ func (w *shutWorld) client(i int, phase string) {
 		w.clientGone[i].Store(true)
 		_ = c.Close()
 		return
-	case "fast", "slow", "late":
+	case "fast", "slow", "late", "stubborn":
 		_, _ = c.Write(reqBytes(id))
 	case "nowrite-smallpipe":
 		_, _ = c.Write(reqBytes(id))
@@ -179,6 +183,12 @@ func shutdownScenario(cfg ShutCfg) func() {
 			})
 			_ = written
 		}
+		for _, ph := range cfg.Phases {
+			if ph == "stubborn" {
+				mc.GoNamed("gate", func() { mc.Close(w.gate) })
+				break
+			}
+		}
 		nShut := cfg.Shutters
 		if nShut == 0 {
 			nShut = 1
@@ -251,6 +261,7 @@ func init() {
 	sd("shut-closeerr-slow", "the listener's Close reports an error; a handler runs until cancelled", ShutCfg{Hook: "ok", CloseErr: true, Phases: []string{"slow"}})
 	sd("shut-closeerr-fast", "the listener's Close reports an error; fast handler", ShutCfg{Hook: "ok", CloseErr: true, Phases: []string{"fast"}})
 	sd("shut-pipelined", "Shutdown at any time vs a connection that pipelined two requests: the first handler runs until cancelled while the second request is already read", ShutCfg{Hook: "ok", Phases: []string{"pipelined"}})
+	sd("shut-stubborn", "Shutdown at any time vs a handler that ignores cancellation and ends only when an external gate opens (at any time): Shutdown returns only after it has ended", ShutCfg{Hook: "ok", Phases: []string{"stubborn"}})
 	sd("shut-2conn", "Shutdown at any time vs two connections (fast handler, slow handler)", ShutCfg{Hook: "ok", Phases: []string{"fast", "slow"}})
 	sd("shut-2conn-idle-fast", "Shutdown at any time vs two connections (idle, fast)", ShutCfg{Phases: []string{"idle", "fast"}})
 }
